@@ -1,5 +1,6 @@
 import RoaringModel.Spec
 import RoaringModel.Ser
+import RoaringModel.IterStep
 /-!
 # Driver core: state, token parsing, canonical `dump`
 
@@ -14,6 +15,11 @@ structure Slot where
   m : Bitmap
   s : List Nat
 deriving Inhabited
+
+/-- a 32-bit iterator slot: MODEL iterator and SPEC cursor (the remaining elements) -/
+structure ISlot where
+  m : Iter
+  s : List Nat
 
 def fnvBasis : UInt64 := 14695981039346656037
 def fnvPrime : UInt64 := 1099511628211
@@ -92,11 +98,16 @@ def bitmapWF (b : Bitmap) : Bool :=
 structure DState where
   dbg : Bool := true
   bm : Array (Option Slot) := Array.replicate 64 none
+  it : Array (Option ISlot) := Array.replicate 64 none
 deriving Inhabited
 
 def DState.getB (st : DState) (i : Nat) : Option Slot := (st.bm.getD i none)
 def DState.setB (st : DState) (i : Nat) (s : Slot) : DState :=
   if i < st.bm.size then { st with bm := st.bm.set! i (some s) } else st
+
+def DState.getI (st : DState) (i : Nat) : Option ISlot := (st.it.getD i none)
+def DState.setI (st : DState) (i : Nat) (s : Option ISlot) : DState :=
+  if i < st.it.size then { st with it := st.it.set! i s } else st
 
 /-- result of one op: new state and the output line; `none` = not handled by this family -/
 abbrev Handler := DState → List String → Option (DState × String)
